@@ -85,11 +85,75 @@ impl<'a> Ctx<'a> {
     }
 }
 
+/// Progress of the grid, for the watchdog: a delay function that does not return (a loop
+/// whose length grows with the attempt number) would otherwise hang the check - and the
+/// retrying caller - instead of being reported.
+static TICKS: std::sync::atomic::AtomicU64 = std::sync::atomic::AtomicU64::new(0);
+static AT_ATTEMPT: std::sync::atomic::AtomicUsize = std::sync::atomic::AtomicUsize::new(0);
+static AT_SERIES: std::sync::Mutex<Option<(String, String)>> = std::sync::Mutex::new(None);
+static DONE: std::sync::atomic::AtomicBool = std::sync::atomic::AtomicBool::new(false);
+pub static REPLAYING: std::sync::Mutex<Option<String>> = std::sync::Mutex::new(None);
+/// a single evaluation may take this long (they take well under a microsecond)
+const STALL_SECS: u64 = 15;
+
+fn at_series(site: &str, label: &str) {
+    *AT_SERIES.lock().unwrap() = Some((site.to_string(), label.to_string()));
+}
+
+fn at(a: usize) {
+    AT_ATTEMPT.store(a, std::sync::atomic::Ordering::Relaxed);
+    TICKS.fetch_add(1, std::sync::atomic::Ordering::Relaxed);
+}
+
+fn start_watchdog(tier: Tier) {
+    use std::sync::atomic::Ordering::Relaxed;
+    std::thread::spawn(move || {
+        let mut last = TICKS.load(Relaxed);
+        let mut since = std::time::Instant::now();
+        loop {
+            std::thread::sleep(std::time::Duration::from_millis(250));
+            if DONE.load(Relaxed) {
+                return;
+            }
+            let now = TICKS.load(Relaxed);
+            if now != last {
+                last = now;
+                since = std::time::Instant::now();
+                continue;
+            }
+            if since.elapsed().as_secs() >= STALL_SECS {
+                let Some((site, label)) = AT_SERIES.lock().unwrap().clone() else { continue };
+                let a = AT_ATTEMPT.load(Relaxed);
+                if let Some(p) = REPLAYING.lock().unwrap().clone() {
+                    println!("next_interval({a}) of {site} [{label}] has not returned after {STALL_SECS}s");
+                    println!("VIOLATION property=C14 replay={p}");
+                    std::process::exit(1);
+                }
+                let mut rep = Report::new("C14", tier, "exploration");
+                rep.rule = "watchdog: one evaluation of the delay function did not return".into();
+                rep.evaluations = now;
+                rep.violations.push(Violation {
+                    property: "C14".into(),
+                    kind: "does_not_return".into(),
+                    site,
+                    config: label,
+                    history: json!({"attempt": a}),
+                    detail: format!("next_interval({a}) has not returned after {STALL_SECS}s (every other point of the grid takes less than a microsecond): the delay is not a function of the attempt number that a caller can wait for"),
+                    log: vec![],
+                });
+                trv_core::finish(rep);
+            }
+        }
+    });
+}
+
 fn check_series(ctx: &mut Ctx, site: &str, label: String, initial: Duration, m: f64, max: Option<Duration>, atts: &[usize], f: &dyn Fn(usize) -> Duration) {
     let mut prev: Option<(usize, Duration)> = None;
     let cap = max.unwrap_or(Duration::MAX);
+    at_series(site, &label);
     for &a in atts {
         ctx.rep.evaluations += 1;
+        at(a);
         let r = catch_unwind(AssertUnwindSafe(|| f(a)));
         let d = match r {
             Ok(d) => d,
@@ -127,12 +191,14 @@ fn check_series(ctx: &mut Ctx, site: &str, label: String, initial: Duration, m: 
 }
 
 fn check_jitter(ctx: &mut Ctx, site: &str, label: String, initial: Duration, m: f64, max: Option<Duration>, factor: f64, atts: &[usize], f: &dyn Fn(usize) -> Duration) {
+    at_series(site, &label);
     let cap = max.unwrap_or(Duration::MAX);
     for &a in atts {
         let e = expected_secs(initial, m, a);
         let base = if e.is_finite() && e < cap.as_secs_f64() { e } else { cap.as_secs_f64() };
         for _ in 0..16 {
             ctx.rep.evaluations += 1;
+            at(a);
             let r = catch_unwind(AssertUnwindSafe(|| f(a)));
             let d = match r {
                 Ok(d) => d,
@@ -162,6 +228,7 @@ fn check_jitter(ctx: &mut Ctx, site: &str, label: String, initial: Duration, m: 
 }
 
 pub fn run(tier: Tier) -> Report {
+    start_watchdog(tier);
     let mut rep = Report::new("C14", tier, "exploration");
     rep.rule = "full grid: attempts (dense prefix + powers of two +-1 + i32/u32/usize limits) x initial x multiplier x max_interval x randomization factor, for ExponentialBackoff, ExponentialRandomBackoff and every ReconnectPolicy constructor; each point evaluated under catch_unwind and compared with initial*multiplier^attempt / the cap; distinct = distinct (configuration, delay value) pairs".into();
     rep.assumptions = vec!["jitter draws come from the thread RNG: bounds are checked on every draw, the draws are not enumerated".into()];
@@ -216,6 +283,8 @@ pub fn run(tier: Tier) -> Report {
     let custom = ReconnectPolicy::Custom(std::sync::Arc::new(ExponentialBackoff::new(Duration::from_millis(100)).max_interval(Duration::from_secs(5))));
     check_series(&mut ctx, "ReconnectPolicy::Custom", "custom(exp 100ms..5s)".into(), Duration::from_millis(100), 2.0, Some(Duration::from_secs(5)), &atts, &|a| custom.delay_for_attempt(a).expect("delay"));
 
+    // (the grid is done: what follows are whole retry loops, which the watchdog does not time)
+    DONE.store(true, std::sync::atomic::Ordering::Relaxed);
     // ---- end to end: loops against a dead backend for 2 h of virtual time
     let hours = tier.pick(2u64, 6);
     {
